@@ -3,7 +3,7 @@ CONSTANTS
   Deviation = "none"
   Kinds = {"q", "async", "mux", "mq", "syncq"}
   Caps = {0, 1}
-  MaxItems = 3
+  MaxItems = 4
   Cons = {1, 2, 3}
 INVARIANTS TypeOK WTypeOK Conservation LanesSorted ClearedIsFinal NoStranded NothingLeftBeside
 VIEW WView
